@@ -168,6 +168,10 @@ def catalogue(tier, rng, families=None, max_n=64):
             if mu <= 4:
                 cs = sorted(rng.sample(range(n), k))
                 infos.append(("custom", cs))
+                pm = rng.sample(range(n), k)
+                if pm == sorted(pm):
+                    pm = pm[::-1]
+                infos.append(("permuted", pm))          # an information set listed in non-ascending order
             for info, iset in infos:
                 add(Entry("Hamming(mu=%d,ext=%s)/%s" % (mu, ext, info), "hamming", (mu, int(ext)),
                           (lambda mu=mu, ext=ext, iset=iset: E.HammingCodeEncoder(mu, extended=ext, information_set=iset)), info=info,
@@ -197,10 +201,18 @@ def catalogue(tier, rng, families=None, max_n=64):
         divs = divisors_of_xn1(n)
         if quick and len(divs) > 6:
             divs = rng.sample(divs, 6)
-        for g in divs:
-            for info in ("left", "right"):
-                add(Entry("Cyclic(n=%d,g=%s)/%s" % (n, bin(g), info), "cyclic", (n, g), (lambda n=n, g=g, info=info: E.CyclicCodeEncoder(code_length=n, generator_polynomial=g, information_set=info)),
-                          info=info, cyclic=True, gpoly=g, component="CyclicCodeEncoder", extra={"k": n - (g.bit_length() - 1)}))
+        for gi, g in enumerate(divs):
+            kk = n - (g.bit_length() - 1)
+            infos = [("left", "left"), ("right", "right")]
+            if gi < 2 and 1 < kk < n:
+                cs = sorted(rng.sample(range(n), kk))
+                pm = rng.sample(range(n), kk)
+                if pm == sorted(pm):
+                    pm = pm[::-1]
+                infos += [("custom", cs), ("permuted", pm)]
+            for info, iset in infos:
+                add(Entry("Cyclic(n=%d,g=%s)/%s" % (n, bin(g), info), "cyclic", (n, g), (lambda n=n, g=g, iset=iset: E.CyclicCodeEncoder(code_length=n, generator_polynomial=g, information_set=iset)),
+                          info=info, cyclic=True, gpoly=g, component="CyclicCodeEncoder", extra={"k": kk}))
     # --- BCH: every Bose distance
     from kaira.models.fec.encoders.bch_code import get_valid_bose_distances
     for mu in range(2, 7):
@@ -211,15 +223,31 @@ def catalogue(tier, rng, families=None, max_n=64):
         except Exception:
             deltas = [3]
         for delta in deltas:
-            for info in ("left", "right"):
+            infos = [("left", "left"), ("right", "right")]
+            if mu in (3, 4):
+                try:
+                    kk = int(E.BCHCodeEncoder(mu, delta).code_dimension)
+                    nn = 2 ** mu - 1
+                    if 1 < kk < nn:
+                        pm = rng.sample(range(nn), kk)
+                        if pm == sorted(pm):
+                            pm = pm[::-1]
+                        infos += [("custom", sorted(rng.sample(range(nn), kk))), ("permuted", pm)]
+                except Exception:
+                    pass
+            for info, iset in infos:
                 if quick and mu >= 5 and (info == "right" or delta < 2 ** (mu - 1) - 5):
                     continue        # quick tier: of the long BCH codes only the low-rate ones (k small enough to enumerate)
-                add(Entry("BCH(mu=%d,delta=%d)/%s" % (mu, delta, info), "bch", (mu, delta), (lambda mu=mu, delta=delta, info=info: E.BCHCodeEncoder(mu, delta, information_set=info)),
+                add(Entry("BCH(mu=%d,delta=%d)/%s" % (mu, delta, info), "bch", (mu, delta), (lambda mu=mu, delta=delta, iset=iset: E.BCHCodeEncoder(mu, delta, information_set=iset)),
                           info=info, cyclic=True, gpoly="obj", component="BCHCodeEncoder"))
     # --- Golay
     for ext in (False, True):
-        for info in ("left", "right"):
-            add(Entry("Golay(ext=%s)/%s" % (ext, info), "golay", (int(ext),), (lambda ext=ext, info=info: E.GolayCodeEncoder(extended=ext, information_set=info)),
+        ng = 24 if ext else 23
+        pmg = rng.sample(range(ng), 12)
+        if pmg == sorted(pmg):
+            pmg = pmg[::-1]
+        for info, iset in (("left", "left"), ("right", "right"), ("permuted", pmg)):
+            add(Entry("Golay(ext=%s)/%s" % (ext, info), "golay", (int(ext),), (lambda ext=ext, iset=iset: E.GolayCodeEncoder(extended=ext, information_set=iset)),
                       info=info, perfect=not ext, dexact=True, component="GolayCodeEncoder"))
     # --- Reed-Solomon style
     for mu in (2, 3, 4):
